@@ -40,8 +40,120 @@ TI_NATURAL = ['par_missing', 'kw_missing_object', 'kw_missing_run1d', 'kw_missin
               'kw_nonnumeric_wavemin', 'hmf_kw_missing_epsilon', 'hmf_kw_bad_nonnegative', 'spplate_missing', 'fibre_absent',
               'unknown_method', 'dump_unwritable', 'no_eigenobj_table', 'redux_unset', 'run2d_integer', 'no_matplotlib',
               'backend_unloadable', 'backend_unloadable+unknown_method', 'backend_unloadable+dump_unwritable']
+# --- realistically sized problems read from an existing dump file (class ti_scale) ------------------------------------------------
+# (spectra, pixels, iterations).  An SDSS spectrum between 3600 and 9000 A at 1e-4 dex has ~3980 pixels; HMF's default is 20
+# iterations, the shipped parameter files ask for 20-100.  Anything that depends on the size of the problem (another algorithm, a
+# pool, a cache, a tuning knob of the numerical libraries switched on above some amount of work) only runs on the upper rungs.
+RUNGS = {'tiny': (8, 300, 5), 'small': (40, 600, 10), 'wide': (12, 4000, 12), 'real': (24, 4000, 32), 'many': (200, 2000, 20),
+         'long': (48, 4600, 64)}
+RUNGS_QUICK = ['tiny', 'small', 'wide', 'real']
+RUNGS_ALL = ['tiny', 'small', 'wide', 'real', 'many', 'long']
+SOLVERS = [('pca', 0), ('hmf', 0), ('hmf', 1)]          # method, nonnegative
+# what happens to a run that got its spectra from the dump file: it completes, a stage after the solver fails (the ratio plots need
+# four components; the name of the output file is taken by a directory), the dump file itself is unusable
+LATE = ['none', 'nkeep_too_small', 'outfile_is_directory']
+DUMP_FAULTS = ['dump_truncated', 'dump_missing_key', 'dump_not_a_pickle', 'dump_shape_mismatch']
+
+
+def realistic(rung):
+    n, m, it = RUNGS[rung]
+    return m >= 3500 and it >= 20
+
+
+# --- variables the entry points do not own (bystanders) ---------------------------------------------------------------------------
+# Settings that the libraries underneath consult (thread pools of BLAS / OpenMP, the matplotlib backend).  The shard processes of this
+# harness are started with three of them set; an ordinary shell has none.  Whatever state they are in on entry - absent, set, some of
+# each - is the state they must be in on return.  'as_found' leaves them as the process has them (cases stored before this clause).
+BYSTANDERS = ('OMP_NUM_THREADS', 'OPENBLAS_NUM_THREADS', 'MKL_NUM_THREADS', 'NUMEXPR_NUM_THREADS', 'VECLIB_MAXIMUM_THREADS',
+              'BLIS_NUM_THREADS', 'OMP_THREAD_LIMIT', 'MPLBACKEND')
+BYSTANDER_STATES = ['absent', 'set', 'mixed', 'mixed2']
+
+
+def bystander_env(state):
+    """{name: value or None (= absent)} for a bystander state"""
+    if state in (None, 'as_found'):
+        return {}
+    val = lambda k: 'Agg' if k == 'MPLBACKEND' else '2'
+    if state == 'absent':
+        return {k: None for k in BYSTANDERS}
+    if state == 'set':
+        return {k: val(k) for k in BYSTANDERS}
+    odd = 1 if state == 'mixed' else 0
+    return {k: (val(k) if n % 2 == odd else None) for n, k in enumerate(BYSTANDERS)}
+
+
+def scale_plan(tier):
+    """the cases of class ti_scale, most expensive first (cases are dealt to the shards round-robin)"""
+    plan = []
+
+    def add(rung, solver, outcome, byst, flux=False, obj='gal'):
+        plan.append({'rung': rung, 'method': solver[0], 'nonnegative': solver[1], 'outcome': outcome, 'bystanders': byst,
+                     'flux': bool(flux), 'object': obj})
+    if tier == 'quick':
+        for ri, rung in enumerate(RUNGS_QUICK):
+            for si, solver in enumerate(SOLVERS):
+                add(rung, solver, 'none', 'absent', flux=(ri + si) % 2)
+        for ri, rung in enumerate(['tiny', 'small']):
+            for si, solver in enumerate(SOLVERS):
+                for oi, outcome in enumerate(LATE[1:]):
+                    add(rung, solver, outcome, ['set', 'mixed', 'mixed2'][(ri + si + oi) % 3], flux=(si + oi) % 2)
+        add('real', SOLVERS[1], 'nkeep_too_small', 'mixed')
+        for di, f in enumerate(DUMP_FAULTS):
+            add('tiny', SOLVERS[di % 3], f, BYSTANDER_STATES[di % 4])
+        for si, solver in enumerate(SOLVERS[:2]):
+            add(['tiny', 'small'][si], solver, 'as_is', ['absent', 'mixed'][si], obj='qso')
+    else:
+        for rung in RUNGS_ALL:
+            for solver in SOLVERS:
+                for oi, outcome in enumerate(LATE):
+                    for bi, byst in enumerate(BYSTANDER_STATES):
+                        add(rung, solver, outcome, byst, flux=(oi + bi) % 2)
+        for di, f in enumerate(DUMP_FAULTS):
+            for si, solver in enumerate(SOLVERS):
+                for bi, byst in enumerate(BYSTANDER_STATES):
+                    add(['tiny', 'small'][(si + bi) % 2], solver, f, byst)
+        for rung in ['tiny', 'small', 'wide']:
+            for solver in SOLVERS:
+                for byst in ['absent', 'mixed']:
+                    add(rung, solver, 'as_is', byst, obj='qso')
+
+    def cost(c):
+        n, m, it = RUNGS[c['rung']]
+        if c['outcome'] in DUMP_FAULTS:
+            return 0
+        w = it * (n + m) * (40 if (c['method'], c['nonnegative']) == ('hmf', 0) else 1) + n * m
+        return w * (4 if c['object'] == 'qso' else 1)
+    plan.sort(key=cost, reverse=True)
+    return plan
+
+
 NL_WS, NC_WS = 40, 24            # upper bounds on line events / direct calls of window_score (checked against the recording)
 NL_TI, NC_TI = 560, 320          # ... of template_input + _template_input + template_metadata
+
+
+class WatchedCalls(Failpoints):
+    """Failpoints without the process-wide PY_START subscription: LINE events of the entry points' own code objects as before, PY_START
+    only of a few named collaborators (local events on their code objects).  For runs in which no fault is injected and the solver
+    makes millions of Python calls, each of which would otherwise go through the callback."""
+
+    def __init__(self, entry_codes, watched):
+        Failpoints.__init__(self, entry_codes)
+        self.watched = tuple(watched)
+
+    def arm(self, mode=None, target=None, exc_type=None):
+        import sys
+        mon = sys.monitoring
+        Failpoints.arm(self, None, None, exc_type)
+        mon.set_events(self.TOOL, 0)
+        for c in self.watched:
+            mon.set_local_events(self.TOOL, c, mon.events.PY_START)
+
+    def disarm(self):
+        import sys
+        mon = sys.monitoring
+        for c in self.watched:
+            mon.set_local_events(self.TOOL, c, 0)
+        Failpoints.disarm(self)
 
 
 class C20(Check):
@@ -61,7 +173,10 @@ class C20(Check):
                    'template_input runs on a synthetic two-plate survey tree (vlib/gen/survey_tree.py, content=spectra) in a temporary cwd',
                    'only Python-level collaborators raise PY_START events; C-level calls are covered by the line-level faults']
     REQUIRED_COUNTERS = ('entry_values_with_a_path_separator', 'ti_runs_with_unloadable_configured_backend', 'clean_runs_restored', 'line_faults_fired', 'call_faults_fired', 'natural_failures_seen',
-                         'faults_while_env_modified', 'putenv_events_observed', 'ws_runs', 'ti_runs')
+                         'faults_while_env_modified', 'putenv_events_observed', 'ws_runs', 'ti_runs',
+                         'ti_runs_from_an_existing_dump', 'realistic_scale_runs:pca', 'realistic_scale_runs:hmf',
+                         'realistic_scale_runs:hmf_nonnegative', 'ti_runs_that_failed_after_the_solver',
+                         'runs_with_bystander_variables_absent_on_entry', 'runs_with_bystander_variables_set_on_entry')
     CASE_CPU_S = 300
     QUICK_SHARDS = 8
     EXHAUSTIVE = True
@@ -101,6 +216,10 @@ class C20(Check):
             self.reach.add(S1._template_input)
         self._clean = {}
         self._tree = None
+        # the stages that do the numerical work of template_input (watched individually in the runs at scale)
+        self.solver_codes = [f.__code__ for f in (getattr(S1, 'pca_solve', None), getattr(getattr(S1, 'HMF', None), 'solve', None),
+                                                  getattr(S1, 'template_qso', None), getattr(S1, 'template_star', None))
+                             if hasattr(f, '__code__')]
         # lines of the entry points' own restore blocks (after their last 'finally:'): a fault that makes the restoring
         # statement itself fail cannot be recovered from and is not a "stage it calls"
         import inspect
@@ -127,6 +246,10 @@ class C20(Check):
                     self.restore_lines.add((fn.__code__.co_name, first + n))
         self._cwd0 = os.getcwd()
         self._n = 0
+        # libraries that the solvers import on first use are loaded now, while the thread-count variables are as the harness set
+        # them: a case that removes those variables must not decide how many threads a library loaded during it starts
+        import scipy.linalg
+        import scipy.cluster.vq
 
     def teardown(self):
         self.W.sdss_score = self._saved_score
@@ -135,6 +258,11 @@ class C20(Check):
 
     # ------------------------------------------------------------------ budget / gen
     def budget(self, tier):
+        b = self._budget(tier)
+        only = os.environ.get('C20_ONLY_DEBUG')
+        return {k: v for k, v in b.items() if not only or k in only.split(',')}
+
+    def _budget(self, tier):
         q = tier == 'quick'
         return {
             'ws_clean': 4,
@@ -145,10 +273,25 @@ class C20(Check):
             'ti_line': (NL_TI // 10) * 2 if q else NL_TI * 8,
             'ti_call': (NC_TI // 4) * 2 if q else NC_TI * 8,
             'ti_natural': len(TI_NATURAL) * (2 if q else 4),
+            'ti_scale': len(scale_plan(tier)),
         }
 
     def gen(self, cls, rng, i):
+        case = self._gen(cls, rng, i)
+        # the state on entry of the variables the entry points do not own rotates through every class
+        case.setdefault('bystanders', BYSTANDER_STATES[(i + i // 4 + i // 16) % len(BYSTANDER_STATES)])
+        return case
+
+    def _gen(self, cls, rng, i):
         q = self.tier == 'quick'
+        if cls == 'ti_scale':
+            c = scale_plan(self.tier)[i]
+            n, m, it = RUNGS[c['rung']]
+            cfg = {'method': c['method'], 'init': list(INIT9[(i * 5 + 1) % NINIT]), 'entry': i,
+                   'scale': {'rung': c['rung'], 'nobj': n, 'npix': m, 'niter': it, 'nkeep': 3 if c['outcome'] == 'nkeep_too_small' else 4,
+                             'nonnegative': c['nonnegative'], 'object': c['object'], 'flux': c['flux'], 'seed': 100 + i}}
+            fault = {'mode': 'none'} if c['outcome'] == 'none' else {'mode': 'natural', 'natural': c['outcome']}
+            return {'entry': 'ti', 'cfg': cfg, 'bystanders': c['bystanders'], 'fault': fault}
         if cls.startswith('ws'):
             if cls == 'ws_clean':
                 return {'entry': 'ws', 'rescore': bool(i % 2), 'calib': ENTRY_CALIB[(i * 5 + 1) % len(ENTRY_CALIB)], 'fault': {'mode': 'none'}}
@@ -209,13 +352,18 @@ class C20(Check):
                                             run2d='v5_7_0', content='spectra', seed=1)
         return self._tree
 
-    def _par(self, path, method, variant=None):
+    def _par(self, path, method, variant=None, scale=None):
         g = np.random.default_rng(3)
         kw = [('object', 'gal'), ('method', method), ('wavemin', '3700'), ('wavemax', '3950'), ('snmax', '100'), ('niter', '3'),
               ('nkeep', '4'), ('minuse', '3'), ('aesthetics', 'mean'), ('run2d', 'v5_7_0'), ('run1d', 'v5_7_0'),
               ('epsilon', '-1.0'), ('nonnegative', '0')]
         d = dict(kw)
         rows = [(pl, mj, f) for pl, mj in ((3587, 55182), (3588, 55184)) for f in range(1, 9)]
+        if scale:
+            # the spectra come from the dump file: the table only has to name as many objects, the window is the survey's
+            d.update(object=scale['object'], wavemin='3600', wavemax='9000', niter=str(scale['niter']), nkeep=str(scale['nkeep']),
+                     minuse='1', nonnegative=str(scale['nonnegative']))
+            rows = [(3587 + k // 640, 55182 + 2 * (k // 640), k % 640 + 1) for k in range(scale['nobj'])]
         if variant and variant.startswith('kw_missing_'):
             d.pop(variant[len('kw_missing_'):])
         elif variant == 'kw_nonnumeric_niter':
@@ -251,8 +399,8 @@ class C20(Check):
             f.write(text)
 
     # ------------------------------------------------------------------ one monitored call
-    def _monitored(self, codes, func, fault):
-        fp = Failpoints(codes)
+    def _monitored(self, codes, func, fault, watched=None):
+        fp = Failpoints(codes) if watched is None else WatchedCalls(codes, watched)
         mode = fault['mode'] if fault['mode'] in ('line', 'call') else None
         exc = None
         before = dict(os.environ)
@@ -344,6 +492,49 @@ class C20(Check):
             out.fail('harness-error', 'clean run of %r did not complete: %s' % (key, rec['exc']))
         return rec
 
+    def _bystanders(self, case, out):
+        env = bystander_env(case.get('bystanders'))
+        out.count('runs_with_bystander_variables_absent_on_entry', any(v is None for v in env.values()))
+        out.count('runs_with_bystander_variables_set_on_entry', any(v is not None for v in env.values()))
+        return env
+
+    def _scale_inputs(self, w, par, cfg, variant):
+        """parameter file and an existing dump file of pre-processed spectra for a problem of the size in cfg['scale']"""
+        sc = cfg['scale']
+        n, m = sc['nobj'], sc['npix']
+        self._par(par, cfg['method'], None, scale=sc)
+        g = np.random.default_rng(sc['seed'])
+        x = np.linspace(0.0, 1.0, m)
+        basis = np.vstack([1.0 + 0 * x, 0.2 + x, np.sin(7 * x) ** 2, np.exp(-((x - 0.4) / 0.05) ** 2), np.cos(3 * x) ** 2])
+        flux = g.uniform(0.5, 2.0, size=(n, 5)).dot(basis) + 0.01 * g.normal(size=(n, m))
+        ivar = np.full((n, m), 100.0)
+        # a few pixels without weight (never a whole column)
+        ivar[g.integers(0, n, size=max(1, n // 4)), g.integers(0, m, size=max(1, n // 4))] = 0.0
+        loglam = np.log10(3600.0) + 1.0e-4 * np.arange(m)
+        d = {'newflux': flux, 'newivar': ivar, 'newloglam': loglam}
+        if variant == 'dump_missing_key':
+            del d['newivar']
+        elif variant == 'dump_shape_mismatch':
+            d['newivar'] = ivar[:, :-1]
+        dump = os.path.join(w, 'dump.pkl')
+        import pickle
+        with open(dump, 'wb') as f:
+            if variant == 'dump_not_a_pickle':
+                f.write(b'SIMPLE  =                    T / not a pickle\n' * 40)
+            else:
+                pickle.dump(d, f)
+        if variant == 'dump_truncated':
+            with open(dump, 'r+b') as f:
+                f.truncate(os.path.getsize(dump) // 2)
+        if variant == 'outfile_is_directory':
+            # the output file is named after the object type and today's MJD (the day before / after too: the run may straddle
+            # midnight UTC); something that cannot be removed as a file has that name
+            import time
+            mjd = int(40587 + time.time() / 86400.0)
+            for k in (mjd - 1, mjd, mjd + 1):
+                os.makedirs(os.path.join(w, 'spEigen%s-%d.fits' % (sc['object'].title(), k)), exist_ok=True)
+        return dump
+
     def run_ws(self, case, out):
         W = self.W
         fault = case['fault']
@@ -356,7 +547,7 @@ class C20(Check):
             os.environ['PHOTO_CALIB'] = case['calib']
             self._stub.fail = False
             return lambda: W.window_score(rescore=case['rescore'])
-        with self.ST.environment({}, clear=('PHOTO_CALIB', 'PHOTO_RESOLVE')):
+        with self.ST.environment(self._bystanders(case, out), clear=('PHOTO_CALIB', 'PHOTO_RESOLVE')):
             rec = self._clean_record(out, ('ws', case['rescore']), self.ws_codes, factory, ['PHOTO_CALIB'])
             if out.fails:
                 return
@@ -432,19 +623,28 @@ class C20(Check):
                'RUN2D': {True: ENTRY_RUN[cfg.get('entry', 0) % len(ENTRY_RUN)], False: None, 'empty': '', 'same': FILE_RUN}[cfg['init'][0]],
                'RUN1D': {True: ENTRY_RUN[(cfg.get('entry', 0) * 7 + 3) % len(ENTRY_RUN)], False: None, 'empty': '', 'same': FILE_RUN}[cfg['init'][1]]}
         out.count('entry_values_with_a_path_separator', sum(1 for k in ('RUN2D', 'RUN1D') if env[k] and '/' in env[k]))
+        env.update(self._bystanders(case, out))
+        scale = cfg.get('scale')
 
-        def factory(variant=None, subdir='clean'):
+        def factory(variant=None, subdir='clean', scale=None):
             w = os.path.join(wd, subdir)
             os.makedirs(w, exist_ok=True)
             os.chdir(w)
             par = os.path.join(w, 'in.par')
+            if scale:
+                dump = self._scale_inputs(w, par, cfg, variant)
+                return lambda: S1.template_input(par, dump, flux=scale['flux'])
             if variant != 'par_missing':
                 self._par(par, cfg['method'], variant)
             dump = os.path.join(w, 'dump.pkl') if variant != 'dump_unwritable' else os.path.join(w, 'no', 'such', 'dir', 'dump.pkl')
             return lambda: S1.template_input(par, dump)
         try:
             with self.ST.environment(env):
-                rec = self._clean_record(out, ('ti', cfg['method'], tuple(cfg['init'])), self.ti_codes, factory, ['RUN2D', 'RUN1D'])
+                if scale:
+                    # no fault point is taken from a recording: the run completes or fails by itself
+                    rec = {'nline': 0, 'ncall': 0}
+                else:
+                    rec = self._clean_record(out, ('ti', cfg['method'], tuple(cfg['init'])), self.ti_codes, factory, ['RUN2D', 'RUN1D'])
                 if out.fails:
                     return
                 out.expect(rec['nline'] <= NL_TI and rec['ncall'] <= NC_TI, 'harness-error',
@@ -452,7 +652,7 @@ class C20(Check):
                 if fault['mode'] in ('line', 'call') and fault['index'] >= rec['n' + fault['mode']]:
                     out.count('index_beyond_recorded_path')
                     return
-                func = factory(nat, 'run')
+                func = factory(nat, 'run', scale)
                 if nat == 'redux_unset':
                     os.environ.pop('BOSS_SPECTRO_REDUX', None)      # only for the faulted run, never for the recording run
                 saved_plt = None
@@ -467,7 +667,7 @@ class C20(Check):
                     matplotlib.rcParams['backend'] = 'module://pydl_verif_backend_that_is_not_installed'
                     out.count('ti_runs_with_unloadable_configured_backend')
                 try:
-                    before, after, events, exc, fp = self._monitored(self.ti_codes, func, fault)
+                    before, after, events, exc, fp = self._monitored(self.ti_codes, func, fault, self.solver_codes if scale else None)
                 finally:
                     if saved_plt is not None:
                         S1.plt = saved_plt
@@ -475,8 +675,19 @@ class C20(Check):
                         matplotlib.rcParams['backend'] = saved_backend
                         import matplotlib.pyplot as _plt
                         _plt.switch_backend(saved_backend)
-                ev = self._verdict(out, before, after, events, ['RUN2D', 'RUN1D'],
-                                   'template_input(method=%s, init=%s) fault=%s' % (cfg['method'], cfg['init'], fault), fp)
+                what = 'template_input(method=%s, init=%s) fault=%s' % (cfg['method'], cfg['init'], fault)
+                if scale:
+                    what += ' dump file with %d spectra x %d pixels, niter %d, nonnegative %d, object %s, bystanders %s' % (
+                        scale['nobj'], scale['npix'], scale['niter'], scale['nonnegative'], scale['object'], case.get('bystanders'))
+                    out.count('ti_runs_from_an_existing_dump')
+                    solved = [c for c in fp.call_seq if c in ('pca_solve', 'HMF.solve', 'template_qso')]
+                    out.count('ti_runs_from_a_dump_that_reached_the_solver', bool(solved))
+                    if solved and scale['npix'] >= 3500 and scale['niter'] >= 20:
+                        out.count('realistic_scale_runs:' + cfg['method'] + ('_nonnegative' if scale['nonnegative'] else ''))
+                    if solved and exc is not None and nat in LATE:
+                        out.count('ti_runs_that_failed_after_the_solver')
+                    out.info['scale'] = scale
+                ev = self._verdict(out, before, after, events, ['RUN2D', 'RUN1D'], what, fp)
                 self._account(out, case, fault, exc, fp, ev, before, ['RUN2D', 'RUN1D'], rec)
         finally:
             os.chdir(self._cwd0)
